@@ -21,15 +21,20 @@ from props import c05_units, c05_paths, c05_sig
 
 ID = 'C05'
 LEAN_MODULE = 'PlasVerif.Properties.C05'
-LEVEL_TEXT = ('Lean 4 theorems over line-by-line models of the numeric scanners, the delimiter readers / argument loop and the signature compiler. '
-              'Full, for every input: signs_parity, integer_denotes (decimal, octal, hex, character codes, registers, optional space, arbitrary following '
-              'tokens), decimal_denotes (all fraction forms), unit_factors_are_TeX and fil_units_decode (unit table regenerated from the live dimen class, '
-              'exact rationals), combine_fil/combine_finite (fil multiples keep their order), compile_render (signature compiler round trip), '
-              'readGrouping_balanced/readToken_group/readCharacter_star and parse_call (every delimiter kind, nested groupings, optional arguments '
-              'present/absent: each position bound to what was written, exactly the call consumed), enable_balance_all_paths (every syntactic path of the '
-              'regenerated control-flow skeletons of the 7 readers, any number of loop iterations, nets to 0). Partial: dimen_denotes/glue_denotes are kept '
-              'as statements; proved is the composition sign x decimal x unit reader (dimen_denotes_partial) and kernel-checked instances; the keyword/unit '
-              'matcher and the casts (str/list/dict/int/float/dimen) are carried by the correspondence streams with independent oracles.')
+LEVEL_TEXT = ('Lean 4 theorems over line-by-line models of the numeric scanners, the keyword/unit matcher, the delimiter readers, the casts, the '
+              'argument loop of Macro.parse and the signature compiler, all for every input: signs_parity; integer_denotes (decimal, octal, hex, '
+              'character codes, registers, optional space, arbitrary following tokens); decimal_denotes (all fraction forms); keyword_select and '
+              'unit_matcher_* (the 11 units + 3 fil orders, `true`, any letter case, push-back of partial matches); dimen_denotes and glue_denotes at '
+              'full strength (every unit, fil orders, register multiples, sign runs, plus/minus in any case; value decoded = TeX order and amount, exactly '
+              'the literal consumed); unit_factors_are_TeX / fil_units_decode (unit table regenerated from the live dimen class, exact rationals); '
+              'combine_fil / combine_finite; compile_render and compile_render_spaced (signature compiler round trip, canonical and any spelling); '
+              'readGrouping_balanced / readToken_group / readCharacter_star / parse_call (every delimiter kind, nested groupings, optional arguments '
+              'present or absent); cast_list, cast_dict, cast_int, cast_float, cast_dimen, scanner_number/dimen/glue (typing); parse_binds and '
+              'parse_binds_last (Macro.parse binds every declared argument once, in order, to the cast of what is written at its position, and consumes '
+              'exactly the call); enable_balance_all_paths (every syntactic path of the regenerated control-flow skeletons of the 7 readers, any number of '
+              'loop iterations, nets to 0). The conformance predicates that are the hypotheses (Spec/Conform.lean) are evaluated by the driver on every '
+              'generated literal. Carried by correspondence only: the tie of each model to the code, expandTokens on macro-bearing arguments, list/dict '
+              'items with subtypes other than none, the regex split.')
 LEVEL_NOTE = ('Trusted: Lean kernel (axioms propext, Classical.choice, Quot.sound), the translators (unit table from the AST of dimen.__new__, '
               'control-flow skeletons from the AST of TeX.py), the correspondence harness and its generators, CPython, re. Floats: the model uses '
               'exact rationals, compared with the implementation within relative 1e-9.')
@@ -315,6 +320,9 @@ def dim_follow(rng, kind, glue=False):
     else:
         allowed = ['eof', 'letterx', 'digit', 'relax', 'bg', 'eg', 'punct']
     k = rng.choice(allowed)
+    if glue and rng.random() < 0.2:
+        # text that starts like a keyword but does not spell it: the matcher must push all of it back
+        return w_text(rng.choice(['p', 'pl', 'plu', 'plux', 'Plum', 'm', 'mi', 'minu', 'MINUx', 'min us', 'pm', 'plu s']))
     if k == 'letterx':
         return [w_ch(rng.choice('aRxzQkg'))] + follow(rng, ['eof', 'letter', 'digit'])[:1]
     return follow(rng, [k])
